@@ -36,8 +36,9 @@ ASSUMPTIONS = [
     "Redis/MongoDB/Zarr via fakes",
 ]
 
-OUT_KINDS = ["call", "values", "items", "get", "getitem", "pop", "popitem", "del_after_get", "slice",
-             "iter", "setdefault_existing"]
+OUT_KINDS = ["call", "call_root", "values", "items", "get", "getitem", "pop", "popitem", "del_after_get",
+             "slice", "iter", "setdefault_existing"]
+OUT_MODES = ["plain", "plain", "buf_obj", "buf_cls", "absent", "absent"]
 
 
 def mutate_all(x, seen=None):
@@ -189,14 +190,29 @@ def _apply(ci, obj, res, entry, path, arg, key):
 
 
 def case_outbound(c):
+    """Results handed out must be detached. ``mode``: 'plain' (unbuffered, file exists), 'buf_obj' /
+    'buf_cls' (inside a buffered context: nothing reloads from the file between the calls), 'absent'
+    (the document only exists in memory - constructed with data= on a missing resource - so no
+    reload can repair an aliased container before the next save)."""
     ci = CLASSES[c["class"]]
     doc = dec(c["doc"])
     kind = c["out"]
     tpath = tuple(dec(c["path"]))
+    mode = c.get("mode", "plain")
+    if mode in ("buf_obj", "buf_cls") and not ci.buffered:
+        mode = "plain"
     d = wm.case_dir()
     reset_class_state()
+    ctx = None
     try:
-        res, obj = _setup(ci, d, doc)
+        if mode == "absent":
+            res = new_resource(ci, d, "d.json")
+            obj = res.make(ci, data=copy.deepcopy(doc))
+        else:
+            res, obj = _setup(ci, d, doc)
+        if mode in ("buf_obj", "buf_cls"):
+            ctx = type(obj).buffer_backend() if mode == "buf_cls" else obj.buffered
+            ctx.__enter__()
         t = obj
         for k in tpath:
             t = t[k]
@@ -208,6 +224,9 @@ def case_outbound(c):
         must_be_plain = False
         if kind == "call":
             r = t()
+            must_be_plain = True
+        elif kind == "call_root":
+            r = obj()
             must_be_plain = True
         elif kind == "values" and tk == "dict":
             r = list(t.values())
@@ -255,14 +274,37 @@ def case_outbound(c):
             bad = deep_plain_types(r)
             if bad:
                 raise Mismatch("result_not_plain_builtin", out=kind, found=bad)
-            _same("result_value", r if kind == "call" else None, mt if kind == "call" else None)
+            exp = mt if kind == "call" else model if kind == "call_root" else None
+            _same("result_value", r if exp is not None else None, exp)
         if r is not None:
             mutate_all(r)
-        _same("outbound_alias_object", obj(), model, out=kind)
-        _same("outbound_alias_backend", res.read(), model, out=kind)
-        _same("outbound_alias_fresh", res.make(ci)(), model, out=kind)
+        _same("outbound_alias_object", obj(), model, out=kind, mode=mode)
+        if ctx is not None:
+            # a second result must be independent of the first as well
+            r2 = obj()
+            mutate_all(r2)
+            _same("outbound_alias_second_result", obj(), model, out=kind, mode=mode)
+            ctx.__exit__(None, None, None)
+            ctx = None
+            _same("outbound_alias_object_after_exit", obj(), model, out=kind, mode=mode)
+        if mode == "absent":
+            # the next save must write the model, not the user's edits
+            if ci.kind == "dict":
+                obj["zz_after"] = 0
+                model["zz_after"] = 0
+            else:
+                obj.append(0)
+                model.append(0)
+            _same("outbound_alias_object_after_save", obj(), model, out=kind, mode=mode)
+        _same("outbound_alias_backend", res.read(), model, out=kind, mode=mode)
+        _same("outbound_alias_fresh", res.make(ci)(), model, out=kind, mode=mode)
         return True
     finally:
+        if ctx is not None:
+            try:
+                ctx.__exit__(None, None, None)
+            except Exception:  # noqa: BLE001
+                pass
         reset_class_state()
         shutil.rmtree(d, ignore_errors=True)
 
@@ -473,10 +515,19 @@ def run_shard(spec, seed, tier, active):
             nt = depth(val) >= 2
         elif kind == "outbound":
             doc = draw(dom.doc(ci.kind))
+            if draw(st.integers(0, 2)) == 0:
+                # an EMPTY container somewhere ("nothing to convert" shortcuts)
+                e = draw(st.sampled_from([{}, [], {"e": {}}, [[]]]))
+                if ci.kind == "dict":
+                    doc["empty"] = e
+                else:
+                    doc.insert(draw(st.integers(0, len(doc))), e)
             paths = container_paths(doc)
+            mode = draw(st.sampled_from(OUT_MODES))
             c = {"kind": kind, "class": ci.name, "doc": enc(doc), "out": draw(st.sampled_from(OUT_KINDS)),
-                 "path": enc(list(draw(st.sampled_from(paths)))), "ki": draw(st.integers(0, 5))}
-            shape = (c["out"], len(dec(c["path"])), depth(doc))
+                 "path": enc(list(draw(st.sampled_from(paths)))), "ki": draw(st.integers(0, 5)),
+                 "mode": mode}
+            shape = (c["out"], len(dec(c["path"])), depth(doc), mode if (ci.buffered or mode == "absent") else "plain")
             nt = depth(doc) >= 2
         else:
             oname = draw(st.sampled_from(others))
